@@ -351,7 +351,10 @@ Definition close_msg (k : kind) (p : pstate mstate) : pstate mstate * list (opti
 Inductive op :=
 | OData (c : bytes)    (* msg.extend(c): bytes received, parser not yet stepped *)
 | OParse               (* parse() until it yields None / raises; makeParser() after every ended message *)
-| OClose.              (* .close() *)
+| OClose               (* .close() *)
+| ORebind (mk : bool) (c : bytes).
+  (* the parser is pointed at a new receive buffer whose current content is c:
+     mk = true: makeParser(msg=buffer) (new parseMessage generator); mk = false: reinit(msg=buffer) *)
 
 Record hstate := {
   hs_p : pstate mstate;
@@ -377,6 +380,14 @@ Definition do_op (k : kind) (h : hstate) (o : op) : hstate :=
     {| hs_p := match hs_p h with Live s b => Live s (b ++ c) | Dead e => Dead e end;
        hs_closed := hs_closed h; hs_fresh := hs_fresh h; hs_started := hs_started h; hs_out := hs_out h |}
   | OClose => {| hs_p := hs_p h; hs_closed := true; hs_fresh := hs_fresh h; hs_started := hs_started h; hs_out := hs_out h |}
+  | ORebind mk c =>
+    (* "if msg is not None: self.msg = msg" -- the buffer is adopted whether or not it is empty at the call *)
+    match hs_p h with
+    | Dead e => h
+    | Live s _ =>
+      {| hs_p := Live (if mk then start_state init_carry else s) c; hs_closed := hs_closed h;
+         hs_fresh := if mk then true else hs_fresh h; hs_started := hs_started h; hs_out := hs_out h |}
+    end
   | OParse =>
     match hs_p h with
     | Dead e => {| hs_p := Dead e; hs_closed := hs_closed h; hs_fresh := false; hs_started := true; hs_out := hs_out h |}
